@@ -901,7 +901,7 @@ def _td_params(draw, st, vals):
     pairs = [(i, j) for i in range(a.ndim) for j in range(b.ndim) if a.shape[i] == b.shape[j]]
     if not pairs:
         return None
-    k = draw(st.integers(1, 2))
+    k = draw(st.sampled_from([1, 2, 2]))  # contractions over two axes are the ones a single-axis test never reaches
     chosen = []
     for _ in range(k):
         avail = [(i, j) for (i, j) in pairs if all(i != ci and j != cj for ci, cj in chosen)]
